@@ -32,10 +32,13 @@ def parse_case(line):
     ns = int(t[1])
     cfgs = [tuple(int(x) for x in t[2 + 6 * k: 8 + 6 * k]) for k in range(ns)]
     i = 2 + 6 * ns
-    ar = {"A": 1, "W": 1, "S": 6, "T": 0, "K": 2, "P": 3, "R": 2, "N": 4, "D": 2, "I": 1, "X": 2, "Q": 0}
+    ar = {"A": 1, "W": 1, "S": 6, "T": 0, "K": 2, "P": 3, "R": 2, "N": 4, "D": 2, "I": 1, "X": 2, "G": 2, "O": 4, "Q": 0,
+          "B": 1, "E": 1, "M": 1, "Y": 4}
     ev = []
     while i < len(t):
         n = ar.get(t[i])
+        if t[i] == "Z" and i + 2 < len(t) + 0 and t[i + 2].isdigit():
+            n = 2 + 2 * int(t[i + 2])
         if n is None:
             break
         ev.append(t[i:i + 1 + n])
@@ -61,11 +64,19 @@ def is_request(code):
     return 1 <= code <= 31
 
 
+def has_options(ev):
+    """context options B / E / M: timers outside the model (expiry of large transmits / receives,
+    keep-alive, idle server sessions) enter the wait the library reports"""
+    return any(e[0] in ("B", "E", "M") for e in ev)
+
+
 def relaxed_wait(ev):
     """an empty ACK for a request makes the library expect a separate response: it starts a
     receive timer of its own (lg_crcv), which enters the reported wait.  That timer is outside the
     model; after such an event the waits are compared one-sidedly (impl <= model, or model 0)."""
     req = set()
+    if has_options(ev):
+        return True
     for e in ev:
         if e[0] == "S" and is_request(int(e[3])):
             req.add((e[1], e[2]))
@@ -78,7 +89,7 @@ def compare(line, mo, co):
     """None if the implementation's trace equals the model's (up to the documented relaxation)"""
     if mo == co:
         return None
-    cfgs, ev = parse_case(line)
+    cfgs, ev = parse_case(model_line(line, co))
     if not relaxed_wait(ev):
         return "trace differs"
     mi, ci = parse_items(mo), parse_items(co)
@@ -127,14 +138,97 @@ def readback_cfgs(line, out):
 
 
 def model_line(line, out):
-    """the case line with the session settings replaced by the read-back values"""
+    """the case line as the model and the oracle get it: session settings replaced by the read-back
+    values; an Observe notification (raw event 'O <sess> <r>': the library chooses its mid and
+    builds its bytes) replaced by 'O <sess> <mid> <bytes> <r>' with what the library transmitted
+    first in that event - or by 'T' if it sent nothing (observer gone); the mid 'L' (last
+    notification of the session) replaced by that number"""
     rb = readback_cfgs(line, out)
-    if rb is None:
-        return line
     t = line.split()
-    for k, c in enumerate(rb):
-        t[2 + 6 * k: 8 + 6 * k] = [str(x) for x in c]
-    return " ".join(t)
+    if rb is not None:
+        for k, c in enumerate(rb):
+            t[2 + 6 * k: 8 + 6 * k] = [str(x) for x in c]
+    ns = int(t[1])
+    if not any(x in line for x in (" O ", " L", " U ", " Z ", " B ", " E ", " M ")):
+        return " ".join(t)
+    head, i = t[:2 + 6 * ns], 2 + 6 * ns
+    ar = {"A": 1, "W": 1, "S": 6, "T": 0, "K": 2, "P": 3, "R": 2, "N": 4, "D": 2, "I": 1, "X": 2, "G": 2, "O": 2, "Q": 0,
+          "B": 1, "E": 1, "M": 1, "U": 5, "Z": 1}
+    items = parse_items(" ".join(w for w in out.split() if ".cfg:" not in w))
+    by_ev = {}
+    for x in items:
+        by_ev.setdefault(x[0], []).append(x)
+    opts = any(x in line for x in (" B ", " E ", " M "))
+    res, ei, last = [], 0, {}
+    now, lastw = 0, None
+    while i < len(t) and t[i] in ar:
+        e = t[i:i + 1 + ar[t[i]]]
+        i += len(e)
+        its = by_ev.get(ei, [])
+        for x in its:
+            if x[1] == "w":
+                lastw = (int(x[2][0]), int(x[2][1]))
+            elif x[1] == "io":
+                now = int(x[2][0])
+        if e[0] == "A":
+            now += int(e[1])
+        elif e[0] == "W":
+            # with timers outside the model in the reported wait, "sleep as long as told" means as
+            # long as the LIBRARY said: the model's clock follows the implementation's
+            new = now
+            if lastw is not None:
+                new = max(now, lastw[0] + lastw[1] + int(e[1]))
+            if opts:
+                e = ["A", str(new - now)]
+            now = new
+        elif e[0] == "O":
+            sidx = int(e[1]) % ns
+            if its and its[0][1] == "tx" and int(its[0][2][1]) == sidx and not its[0][2][2].startswith("#"):
+                b = its[0][2][2]
+                mid = int(b[4:8], 16)
+                last[sidx] = mid
+                e = ["O", e[1], str(mid), b, e[2]]
+            else:
+                e = ["T"]
+        elif e[0] == "U":
+            # first block of a large transmit: the library builds the datagram (Block1, Size1, its own token)
+            sidx, mid = int(e[1]) % ns, int(e[2])
+            b = None
+            for x in [y for y in items if y[0] >= ei and y[1] == "tx"]:
+                xb = x[2][2]
+                if int(x[2][1]) == sidx and "#" not in xb and len(xb) >= 8 and int(xb[4:8], 16) == mid:
+                    b = xb
+                    break
+            if b is None:
+                b = "4003%04x" % (mid & 0xffff)
+            e = ["Y", e[1], e[2], b, e[5]]
+        elif e[0] == "S" and opts:
+            # in block mode the library adds options of its own (Request-Tag) to a request: the datagram is
+            # what it transmitted
+            sidx, mid = int(e[1]) % ns, int(e[2])
+            for x in [y for y in items if y[0] >= ei and y[1] == "tx"]:
+                xb = x[2][2]
+                if int(x[2][1]) == sidx and "#" not in xb and len(xb) >= 8 and int(xb[4:8], 16) == mid:
+                    e = ["Y", e[1], e[2], xb, e[6]]
+                    break
+        elif e[0] == "Z":
+            pg = [(int(x[2][0]), int(x[2][1])) for x in its if x[1] == "pg"]
+            order = []
+            for x in its:
+                if x[1] == "tx" and len(x[2][2]) == 8 and x[2][2].startswith("4000"):
+                    key = (int(x[2][1]), int(x[2][2][4:8], 16))
+                    if key in pg and key not in order:
+                        order.append(key)
+            order += [k for k in pg if k not in order]
+            for (sx, mx) in order:
+                last[sx] = mx
+            e = ["Z", e[1], str(len(order))] + [str(v) for k in order for v in k]
+        if e[0] in ("K", "P", "R", "X") and e[2] == "L":
+            e = list(e)
+            e[2] = str(last.get(int(e[1]) % ns, 65535))
+        res += e
+        ei += 1
+    return " ".join(head + res)
 
 
 def run_pair(model, drv, lines):
@@ -147,8 +241,8 @@ def run_pair(model, drv, lines):
 
 def impl_oracle(line, out):
     """Evaluate the property on what the implementation did.  Returns (problems, facts)."""
+    line = model_line(line, out)
     cfgs, ev = parse_case(line)
-    cfgs = readback_cfgs(line, out) or cfgs
     items = parse_items(out)
     items = [i for i in items if i[1] != "cfg"]
     ns = len(cfgs)
@@ -161,7 +255,7 @@ def impl_oracle(line, out):
     live = {}       # (sess, mid) -> list of records
     fog = set()     # keys (sess, mid) whose messages the trace can no longer tell apart
     closed = []
-    relaxed = False
+    relaxed = has_options(ev)
     stats = {"retx": 0, "acked": 0, "rst": 0, "giveup": 0, "sent": 0, "disc": 0}
     dead = set()
     now = 0
@@ -257,6 +351,8 @@ def impl_oracle(line, out):
                 if t != now:
                     problems.append("prepare stamped %d at %d" % (t, now))
                 npend = sum(1 for v in live.values() for r in v if r["tx"])
+                if relaxed and w > 0 and (hd < 0 or w < hd - t):
+                    stats["other_timer_waits"] = stats.get("other_timer_waits", 0) + 1
                 if fog:
                     continue
                 if hd < 0:
@@ -346,7 +442,7 @@ def impl_oracle(line, out):
                     if r["T"] is not None and r["tx"][-1] + (r["T"] << (len(r["tx"]) - 1)) <= now:
                         problems.append("coap_io_process left mid %d behind although it was due" % r["mid"])
             continue
-        if k in ("S", "K", "P", "R", "N", "X") and int(e[1]) % ns in dead:
+        if k in ("S", "K", "P", "R", "N", "X", "Y") and int(e[1]) % ns in dead:
             if its:
                 problems.append("event on a disconnected session produced %s" % [i[1] for i in its])
             continue
@@ -383,6 +479,75 @@ def impl_oracle(line, out):
                     stats["disc"] += 1
             fog = {key for key in fog if key[0] != s}
             continue
+        if k in ("G", "B", "E", "M"):
+            continue
+        if k == "Z":
+            # a prepare call from inside which the library may send keep-alive pings (empty CONs with
+            # mids of its own choosing): what was due fires, the pings are accepted, and the wait the
+            # call reports must cover them too
+            n = int(e[2])
+            pings = [(int(e[3 + 2 * j]) % ns, int(e[4 + 2 * j])) for j in range(n)]
+            rest = [x for x in its if x[1] != "pg"]
+            cut = len(rest)
+            for j, x in enumerate(rest):
+                if x[1] == "tx" and (int(x[2][1]), int(x[2][2][4:8], 16) if "#" not in x[2][2] else -1) in pings \
+                        and not live.get((int(x[2][1]), int(x[2][2][4:8], 16))):
+                    cut = j
+                    break
+            process_fired(rest[:cut])
+            wi = [x for x in rest[cut:] if x[1] == "w"]
+            for x in rest[cut:]:
+                if x[1] != "tx":
+                    if x[1] != "w":
+                        problems.append("after a ping inside prepare: %s" % x[1])
+                    continue
+                s2, b = int(x[2][1]), x[2][2]
+                mid2 = int(b[4:8], 16)
+                if (s2, mid2) not in pings or b[:4] != "4000" or len(b) != 8:
+                    problems.append("transmission %s after a ping inside prepare" % b)
+                    continue
+                stats["sent"] += 1
+                stats["pings"] = stats.get("pings", 0) + 1
+                rec = {"sess": s2, "mid": mid2, "bytes": b, "tx": [int(x[2][0])], "cfg": cfgs[s2], "T": None,
+                       "code": 0, "out": None, "taint": False, "tok": "-"}
+                if (s2, mid2) not in fog:
+                    l = live.setdefault((s2, mid2), [])
+                    l.append(rec)
+                    if len(l) > 1:
+                        fog.add((s2, mid2))
+                        live.pop((s2, mid2), None)
+            process_fired(wi)
+            continue
+        if k == "O":
+            # a Confirmable notification generated and sent inside the prepare call: accepted like a
+            # coap_send at the start of the call; the wait the call reports must cover it
+            s, mid, b = int(e[1]) % ns, int(e[2]), e[3]
+            stats["sent"] += 1
+            if not its or its[0][1] != "tx" or its[0][2][2] != b:
+                problems.append("notification of session %d: first item %s" % (s, its[:1]))
+                continue
+            t = int(its[0][2][0])
+            if t != now:
+                problems.append("notification stamped %d at %d" % (t, now))
+            tkl = int(b[1], 16)
+            rec = {"sess": s, "mid": mid, "bytes": b, "tx": [t], "cfg": cfgs[s], "T": None,
+                   "code": int(b[2:4], 16), "out": None, "taint": False, "tok": (b[8:8 + 2 * tkl] or "-")}
+            if (s, mid) not in fog:
+                l = live.setdefault((s, mid), [])
+                l.append(rec)
+                if len(l) > 1:
+                    fog.add((s, mid))
+                    live.pop((s, mid), None)
+            process_fired(its[1:])
+            continue
+        if k == "Y":
+            # coap_send of a CON whose datagram the library built (first block of a large transmit)
+            yb = e[3]
+            ytkl = int(yb[1], 16)
+            e = ["S", e[1], e[2], str(int(yb[2:4], 16)), (yb[8:8 + 2 * ytkl] or "-"), "-", e[4]]
+            k = "S"
+            if "ff7575" in yb:
+                stats["uploads"] = stats.get("uploads", 0) + 1
         if k == "S":
             s, mid, code = int(e[1]) % ns, int(e[2]), int(e[3])
             stats["sent"] += 1
@@ -561,7 +726,9 @@ def main(run):
     run.assumptions = [
         "timing is claimed at the resolution of the code's Q.6 fixed point (1/64 s per setting) and of one tick (1 ms)",
         "max_retransmit <= 255 in the theorems (8-bit retransmit_cnt); no wrap of the 64-bit tick counter",
-        "only the send queue's timers enter the reported wait (no observe/async/block/DTLS/keep-alive timers); "
+        "the model's wait is the send queue's; where other timers enter the reported wait (block-mode state expiry, keep-alive, idle "
+        "server sessions: 'timers' cases; no async/DTLS/lg_srcv timers driven) the wait is compared one-sidedly (not 0, not past the "
+        "earliest retransmission); keep-alive periods above the longest back-off delay (coap_retransmit's clamp is outside the model); "
         "after an empty ACK to a request the library's own receive timer is compared one-sidedly",
         "NSTART: hold-back and release are modelled for the released message's timer; order/fairness of slots is C08's",
         "allocation never fails (C18)"]
@@ -616,8 +783,12 @@ def main(run):
         gens.append(G.gen_ioloop_case(r))
     for _ in range(700 if quick else 25000):
         gens.append(G.gen_held_case(r))
+    for _ in range(300 if quick else 10000):
+        gens.append(G.gen_observe_case(r))
     for _ in range(40 if quick else 1000):
         gens.append(G.gen_separate_case(r))
+    for _ in range(260 if quick else 9000):
+        gens.append(G.gen_timers_case(r))
     for c in gens:
         cases.append((c, G.line_of(c)))
     lines = [c[1] for c in cases]
@@ -626,7 +797,8 @@ def main(run):
     nbad = 0
     nkind = {}
     oracle_self = []
-    agg = {"retx": 0, "acked": 0, "rst": 0, "giveup": 0, "sent": 0, "disc": 0, "pending_at_end": 0}
+    agg = {"retx": 0, "acked": 0, "rst": 0, "giveup": 0, "sent": 0, "disc": 0, "pending_at_end": 0,
+           "pings": 0, "uploads": 0, "other_timer_waits": 0}
     for i, ln in enumerate(lines):
         mo, co = om[i], oc[i]
         c = cases[i][0]
@@ -640,7 +812,7 @@ def main(run):
         run.hist("kind", kind)
         run.hist("sessions", ln.split()[1])
         run.hist("messages", min(facts.get("sent", 0), 8))
-        run.hist("events", min(len(parse_case(ln)[1]) // 10 * 10, 100))
+        run.hist("events", min(len(parse_case(model_line(ln, co))[1]) // 10 * 10, 100))
         if i % 400 == 7:
             run.sample({"case": ln[:400], "impl": co[:400]})
         bad = None
